@@ -404,7 +404,11 @@ func c8UseAfterRelease(c *Ctx, releaseFns map[string]bool) {
 					return
 				}
 				if e := escapes(v, objS, 0); e != "" {
-					if _, ok := transfer[fn.String()+"|"+fld]; !ok {
+					_, listed := transfer[fn.String()+"|"+fld]
+					// the same hand-over wherever it is written: the buffer outlives putJSONEncoder because that function
+					// clears the encoder's buf field without freeing the buffer (decided by R8.4/put-json-keeps-buf)
+					handOver := strings.HasSuffix(relName(cl), "zapcore.putJSONEncoder") && fld == "buf" && e == "is returned"
+					if !listed && !handOver {
 						esc = append(esc, fld+" "+e)
 					}
 				}
